@@ -1228,7 +1228,7 @@ func splitIntoSentences(text string) []string {
 				str := current.String()
 				if len(str) >= 2 {
 					prevChar := rune(str[len(str)-2])
-					if unicode.IsUpper(prevChar) && (i < 2 || unicode.IsSpace(rune(str[len(str)-3]))) {
+					if unicode.IsUpper(prevChar) && (len(str) < 3 || unicode.IsSpace(rune(str[len(str)-3]))) {
 						continue
 					}
 				}
